@@ -155,6 +155,17 @@ class Builtin:
         self.name = name
 
 
+class Opaque:
+    """The result of object(): a sentinel with identity only."""
+    __slots__ = ("where",)
+
+    def __init__(self, where):
+        self.where = where
+
+    def __repr__(self):
+        return f"<object() of {self.where}>"
+
+
 IGNORED_ATTRS = ("_hash", "_sorted")
 NOT_IMPLEMENTED = object()
 
@@ -322,6 +333,8 @@ class Evaluator:
     def call_py_type(self, c: Cls, args, kwargs, where):
         if kwargs:
             raise AnalysisError(f"absint: {c.name}(**kwargs) at {where}")
+        if c.name == "object" and not args:
+            return Opaque(where)
         if c.name == "list":
             return list(self.iterate(args[0], where)) if args else []
         if c.name == "tuple":
@@ -522,7 +535,7 @@ class Evaluator:
             return Cls(name)
         if name in ("len", "isinstance", "iter", "next", "any", "all", "sorted", "super", "min", "max", "sum", "reversed",
                     "enumerate", "zip", "map", "filter", "range", "id", "hasattr", "getattr", "issubclass", "repr", "hash",
-                    "print", "callable"):
+                    "print", "callable", "staticmethod"):
             return Builtin(name)
         if name in ("ValueError", "TypeError", "IndexError", "KeyError", "StopIteration", "RuntimeError", "Exception",
                     "NotImplementedError", "AssertionError", "AttributeError"):
@@ -598,6 +611,8 @@ class Evaluator:
             if attr not in known.get(kind, ()):
                 raise PyRaise("AttributeError", f"{where} ('{kind}' object has no attribute '{attr}')")
             return BoundBuiltin(obj, attr)
+        if isinstance(obj, Builtin) and obj.name == "chain" and attr == "from_iterable":
+            return Builtin("chain_from_iterable")
         raise AnalysisError(f"absint: attribute .{attr} of {show(obj)} at {where}")
 
     def set_attr(self, obj, attr: str, value, where: str):
@@ -744,6 +759,8 @@ class Evaluator:
                     return args[2]
                 raise
             return True if name == "hasattr" else v
+        if name == "staticmethod":
+            return args[0]                 # read back through the class without binding (FuncVal of a module-level function)
         if name == "chain":
             return Iter([x for a in args for x in self.iterate(a, where)])
         if name == "chain_from_iterable":
@@ -868,6 +885,9 @@ class Evaluator:
                 return None
             if name == "reverse":
                 obj.reverse()
+                return None
+            if name == "sort" and not args:
+                obj[:] = self.call_builtin("sorted", [list(obj)], dict(kwargs), where)
                 return None
             raise AnalysisError(f"absint: list.{name}() at {where}")
         if isinstance(obj, tuple) and name in ("index", "count"):
